@@ -74,10 +74,12 @@ const (
 	pPrefixEmpty  // ErrorHasPrefix(""): met by every error
 	pSuffixLonger // one byte plus the text
 	pSuffixEmpty  // ErrorHasSuffix(""): met by every error
+	pCustomAccept // caller-written predicate: returns err != nil, never reports anything itself
+	pCustomReject // caller-written predicate: always returns false, never reports anything itself
 	numPreds
 )
 
-var predNames = [...]string{"none", "AnyError", "Error(met)", "Error(unmet)", "Error(near-miss)", "HasPrefix(met)", "HasPrefix(unmet)", "HasPrefix(near-miss)", "HasSuffix(met)", "HasSuffix(unmet)", "HasSuffix(near-miss)", "Match(met)", "Match(unmet)", "Match(near-miss)", "Match(invalid)", "Error(text+1)", "Error(empty)", "HasPrefix(text+1)", "HasPrefix(empty)", "HasSuffix(1+text)", "HasSuffix(empty)"}
+var predNames = [...]string{"none", "AnyError", "Error(met)", "Error(unmet)", "Error(near-miss)", "HasPrefix(met)", "HasPrefix(unmet)", "HasPrefix(near-miss)", "HasSuffix(met)", "HasSuffix(unmet)", "HasSuffix(near-miss)", "Match(met)", "Match(unmet)", "Match(near-miss)", "Match(invalid)", "Error(text+1)", "Error(empty)", "HasPrefix(text+1)", "HasPrefix(empty)", "HasSuffix(1+text)", "HasSuffix(empty)", "custom(silent, accepts any error)", "custom(silent, rejects)"}
 
 // caseSpec scripts one case: what its collaborators will do.
 type caseSpec struct {
@@ -134,7 +136,8 @@ type listRun struct {
 	specs    []caseSpec
 	enc      int
 	events   []event
-	lastSeen int // index of the most recent collaborator invocation, -1 before any
+	badIndex []string // hooks that were handed an index other than their case's position
+	lastSeen int      // index of the most recent collaborator invocation, -1 before any
 	failures []int
 	listFail int // failures recorded before any collaborator ran (interface check)
 	goexit   bool
@@ -144,6 +147,12 @@ type listRun struct {
 }
 
 var cur *listRun
+
+func (l *listRun) hookIndex(phase string, pos, got int) {
+	if pos != got {
+		l.badIndex = append(l.badIndex, fmt.Sprintf("%s hook of case %d received index %d", phase, pos, got))
+	}
+}
 
 func (l *listRun) seen(what string, idx int) {
 	l.events = append(l.events, event{what, idx})
